@@ -60,7 +60,7 @@ def configs(tier):
     out += float_configs(tier)
     # long rejection runs: the proposal is scripted to the light candidate T times (its acceptance test is forced to fail by an
     # assumption on the draw, so the run is ONE path), then to the heaviest one
-    for T in ((150,) if tier == 'quick' else (150, 1200)):
+    for T in ((150,) if tier == 'quick' else (150, 400)):
         for k in (2, 3):
             out.append(dict(entry='_ListDict_', k=k, op='none', target=None, count=1, op2=None, R=T + 5, long_run=T, tags=['long-rejection-run', 'k%d' % k]))
     return out
